@@ -17,6 +17,7 @@ from core.prog import strip, walk, ap, key, short, const_int, is_null_const, cal
 from core.psts import Env, solve, relevance, apply_generic
 
 SAVE_FIELD = 'save_seq_num_func'
+RESTART_FIELDS = ('start_seq_num',)
 
 
 def sender_rec(P):
@@ -71,6 +72,7 @@ def seq_step(t, rec):
 def run(run, P):
     run.rule('R-SSN-ORDER')
     rec = sender_rec(P)
+    run.require(run.fixture_mode or any(any(x['n'] in RESTART_FIELDS for x in fl) for fl in P.records.values()), 'R-SSN-ORDER: no record has a field %s (configured restart value)' % (RESTART_FIELDS,))
     if rec is None:
         if run.fixture_mode:
             return
@@ -101,6 +103,18 @@ def run(run, P):
                         for d in t2['d']:
                             if 'v%d' % d['id'] == bvar and 'init' in d and _alloc(d['init']):
                                 fresh = True
+                # where a context is built, the number is either 0 (a brand-new context) or the configured restart value itself: the value
+                # last handed to the save callback.  The watermark next_seq is DERIVED from it (rounded down to a multiple of ssn_freq);
+                # resuming from the derived value re-uses the partial IVs between the two.
+                if fresh and ev['e'].get('k') == 'asg' and ev['e'].get('op') == '=':
+                    r0 = strip(ev['e']['r'])
+                    K0 = const_int(ev['e']['r'])
+                    src_ok = K0 == 0 or (isinstance(r0, dict) and r0.get('k') == 'mem' and r0.get('f') in RESTART_FIELDS)
+                    run.oblige('R-SSN-ORDER', src_ok, 'restart-source:%s' % f['name'])
+                    if not src_ok:
+                        run.violation('R-SSN-ORDER', f['name'], ev['loc'], 'restart-from-derived-value',
+                                      'the sender sequence number of the new context is initialised from %s instead of the configured restart value (%s) or 0: if that value is smaller '
+                                      'than the number last saved, partial IVs that were already used are used again after a restart' % (short(ev['e']['r'])[:40], '/'.join(RESTART_FIELDS)), [])
                 run.oblige('R-SSN-ORDER', fresh, 'writer:%s' % f['name'])
                 if not fresh:
                     run.violation('R-SSN-ORDER', f['name'], ev['loc'], 'seq-set-outside-constructor',
